@@ -110,6 +110,33 @@ def model(case):
     return rows, it, ret
 
 
+def _only_final_line_effects_right_of_last(case, gv, ev, gp, ep):
+    """True iff the control is a 'last() -> ...' form and the ONLY differences are that marker/print components positioned to the
+    right of it lack exactly their final entry (the effect of the line on which last() fired)."""
+    if not case["ctrl"].startswith("last"):
+        return False
+    pos = case["pos"]
+    right = case["comps"][pos + 1 :]
+    right_markers = set()
+    right_has_print = False
+    for c in right:
+        if c[0] == "f" and c[1] == "push":
+            right_markers.add(c[3][0][1])
+        if c[0] == "f" and c[1] == "print":
+            right_has_print = True
+    for k in set(gv) | set(ev):
+        g, e = gv.get(k, []), ev.get(k, [])
+        if g == e:
+            continue
+        if k in right_markers and isinstance(e, list) and g == e[:-1]:
+            continue
+        return False
+    if gp != ep:
+        if not (right_has_print and gp == ep[:-1]):
+            return False
+    return True
+
+
 def run_case(case):
     from mcx import run, sandbox
 
@@ -131,10 +158,16 @@ def run_case(case):
             bad("returned lines", got, ret)
         gv = {k: v for k, v in o["vars"].items() if v is not None}
         ev = {k: v for k, v in it.vars.items() if v is not None}
-        if gv != ev:
-            bad("marker stacks", gv, ev)
-        if o["printouts"] != it.prints:
-            bad("printouts", o["printouts"], it.prints)
+        frozen_kf = False
+        if gv != ev or o["printouts"] != it.prints:
+            frozen_kf = _only_final_line_effects_right_of_last(case, gv, ev, o["printouts"], it.prints)
+        if frozen_kf:
+            bad("components right of last() lost their effects on the final line", (gv, o["printouts"]), (ev, it.prints))
+        else:
+            if gv != ev:
+                bad("marker stacks", gv, ev)
+            if o["printouts"] != it.prints:
+                bad("printouts", o["printouts"], it.prints)
         if o["scan_count"] != it.scan_count:
             bad("scan_count", o["scan_count"], it.scan_count)
         if o["match_count"] != it.match_count:
